@@ -19,7 +19,9 @@
 package dag
 
 import (
+	"bytes"
 	"encoding/base64"
+	"errors"
 	"fmt"
 	"time"
 
@@ -35,6 +37,12 @@ func ParseTransaction(input []byte) (Transaction, error) {
 	message, err := jws.Parse(input)
 	if err != nil {
 		return nil, fmt.Errorf(unableToParseTransactionErrFmt, err)
+	}
+	// A transaction is referenced by the hash of its bytes, so there must be exactly 1 encoding of a signed transaction.
+	// The JWS library is lenient: it also accepts JSON serialization, additional segments, padded or non-URL base64 and line breaks,
+	// and then verifies the signature over a normalized form instead of the received bytes.
+	if err := assertCompactSerialization(input); err != nil {
+		return nil, transactionValidationError("%w", err)
 	}
 	if len(message.Signatures()) == 0 {
 		return nil, transactionValidationError("JWS does not contain any signature")
@@ -65,6 +73,23 @@ func ParseTransaction(input []byte) (Transaction, error) {
 		}
 	}
 	return result, nil
+}
+
+// assertCompactSerialization checks that the input is a JWS in compact serialization (RFC7515 §7.1) in its canonical form:
+// exactly 3 segments separated by a dot, all of them base64url encoded without padding, whitespace or unused trailing bits.
+func assertCompactSerialization(input []byte) error {
+	segments := bytes.Split(input, []byte{'.'})
+	if len(segments) != 3 {
+		return errors.New("JWS is not in compact serialization form")
+	}
+	for _, segment := range segments {
+		decoded, err := base64.RawURLEncoding.Strict().DecodeString(string(segment))
+		// decoder ignores line breaks, so compare with the re-encoded value
+		if err != nil || base64.RawURLEncoding.EncodeToString(decoded) != string(segment) {
+			return errors.New("JWS segment is not base64url encoded (without padding)")
+		}
+	}
+	return nil
 }
 
 func transactionValidationError(format string, args ...interface{}) error {
